@@ -629,7 +629,7 @@ FLOAT_TEXTS = {
     'float': ['0', '1', '-1', '1.5', '.5', '5.', '1e10', '1E+5', '-2.5e-3', '16777216', '16777217', '33554433',
               '3000000000', '4294967295', '4294967296', '9223372036854775807', '18446744073709551615',
               '18446744073709551616', '340282346638528859811704183484516925440', '3.4028234e38', '3.4028235e38',
-              '1.17549435e-38', 'NaN', 'INF', '-INF', '+INF', '+1.5', '0.1', '123456789', '08', '010', '1e0', '00'],
+              '1.17549436e-38', 'NaN', 'INF', '-INF', '+INF', '+1.5', '0.1', '123456789', '08', '010', '1e0', '00'],
     'double': ['0', '1', '-1', '1.5', '.5', '5.', '1e10', '1e308', '-1.7976931348623157e308', '2.2250738585072014e-308',
                '9007199254740992', '9007199254740993', '18014398509481985', '9223372036854775807',
                '9223372036854775808', '18446744073709551615', '18446744073709551616', '36893488147419103232', 'NaN',
@@ -639,7 +639,7 @@ FLOAT_TEXTS = {
 
 SAFE_FLOAT = {
     'float': ['0', '1', '-1', '1.5', '.5', '5.', '1e10', '1E+5', '-2.5e-3', '16777216', '3000000000', '4294967296',
-              '9223372036854775808', '3.4028234e38', '3.4028235e38', '1.17549435e-38', 'NaN', 'INF', '-INF', '+INF', '+1.5',
+              '9223372036854775808', '3.4028234e38', '3.4028235e38', '1.17549436e-38', 'NaN', 'INF', '-INF', '+INF', '+1.5',
               '0.1', '08.5', '1e0', '-0.0', '123456.789e3'],
     'double': ['0', '1', '-1', '1.5', '.5', '5.', '1e10', '1e308', '-1.7976931348623157e308', '2.2250738585072014e-308',
                '9007199254740992', '4611686018427387904', '9223372036854775808', 'NaN', 'INF', '-INF', '+INF', '+2', '0.1',
